@@ -26,6 +26,9 @@ pred LockWF(s Store) = forall a Bytes {s.opt(akey(a))} :: s.has(akey(a)) && acct
 // C01: no negative balance, supply equals the sum of all balances; LockWF: a lock account names a 20-byte parent
 invariant InvBalance [C01] = NonNeg(store) && supply(store) == SumBal(store)
 invariant InvLocks [C09] = LockWF(store)
+// base of the induction: the empty store of a freshly deployed contract satisfies both (the sum over no keys is 0, L-FOLD);
+// the first deployment writes nothing (module upgrade)
+lemma emptyStoreInv [C01,C09]: forall s Store :: (forall x Bytes {s.opt(x)} :: !s.has(x)) ==> NonNeg(s) && supply(s) == SumBal(s) && LockWF(s)
 
 func getAccount(ctx, key) (r)
   pure
@@ -202,6 +205,8 @@ func switchToNotary(ctx)
   ensures notifs == old(notifs)
 
 func _deploy(data, isUpdate)
+  // the first deployment writes nothing: the invariants of module core start from the empty store (lemma emptyStoreInv there)
+  ensures [C01] !isUpdate ==> store == old(store) && notifs == old(notifs)
   // version window: oldest supported <= deployed version < new version
   ensures [C16] isUpdate ==> PrevVersion <= lastarg(data) && lastarg(data) < Version
   // the supply counter survives every upgrade path
